@@ -352,7 +352,25 @@ def absolute_label_cause(lines, n, ru):
     variant[n - 1] = head + ' ' + new_rest
     asm = harness.real_asm()
     rv = pipeline.run_real(asm, '\n'.join(variant), True)
-    return 'absolute-label-value-moved' if rv.get('status') == 'OK' else 'other'
+    if rv.get('status') != 'OK':
+        return 'other'
+    # ... and with the label values of the COMPRESSED layout written in, the line is refused without any compression as well:
+    # its immediate really is out of range there (a decision taken by the compression machinery on a moving value is something else)
+    clabels = dict(rv.get('labels', []))
+    rest2 = rest
+    for k in used:
+        if k not in clabels:
+            return 'other'
+        rest2 = re.sub(r'(?<![\w.%])' + re.escape(k) + r'(?![\w])', str(clabels[k]), rest2)
+    if '%position' in rest2.lower():
+        rest2 = re.sub(r'%position\s*\(\s*(-?\d+)\s*,?\s*([^)]*)\)', lambda m: '{} + ({})'.format(m.group(1), m.group(2).strip() or '0'), rest2,
+                       flags=re.I)
+    variant2 = list(lines)
+    variant2[n - 1] = head + ' ' + rest2
+    r2 = pipeline.run_real(asm, '\n'.join(variant2), False)
+    if r2.get('status') == 'ASM' and r2.get('line') == n:
+        return 'absolute-label-value-moved'
+    return 'other'
 
 
 def compress_failure_cause(source, rc, ru):
